@@ -19,6 +19,7 @@ P_C09_AllOrNothing      == [][R(A_C09_AllOrNothing)]_<<vars, l>>
 P_C09_NothingWhenFailed == [][R(A_C09_NothingWhenFailed)]_<<vars, l>>
 P_C09_Status            == [][R(A_C09_Status)]_<<vars, l>>
 P_C09_InvalidNoEffect   == [][R(A_C09_InvalidNoEffect)]_<<vars, l>>
+P_C09_AbortNoEffect     == [][R(A_C09_AbortNoEffect)]_<<vars, l>>
 
 Consumed == TLCGet("stats").diameter - 1 = Len(Trace)
 =============================================================================
